@@ -275,7 +275,7 @@ def R4_edge_oriented(ctx):
         if okp:
             # the loop ranges over all routes of the sub-result (iter_mut, no take/skip)
             recv = nosite(deep_strip(tm.operand(push[0].args[0], push[0].bb)))
-            trunc = [x[1] for x in calls_in(recv) if re.search(r"Iterator::(take|skip|filter|step_by)$", x[1])]
+            trunc = [x[1] for x in calls_in(recv) if re.search(r"Iterator>?::(take|skip|filter|step_by)$", x[1])]
             okp = not trunc and bool(calls_in(recv, "iter_mut"))
             st = dict(v[3]).get("result_state")
             okp = okp and bool(calls_in(st, "last"))
@@ -339,7 +339,7 @@ def R5_reorient(ctx, rid="C01.R5"):
         alts = set(v[1]) if v[0] == "phi" else {v}
         oki = idx == ("const", "usize", 0) and any(contains(x, lambda s: s == ("field", lst, "edge_id")) for x in alts)
         base = nosite(deep_strip(tm.operand(ins[0].args[0], ins[0].bb)))
-        revs = [c for c in calls_in(base) if c[1].endswith("Iterator::rev")]
+        revs = [c for c in calls_in(base) if itm(c[1], "rev")]
         okr = len(revs) == 1 and contains(revs[0], lambda s: s == ("call", "std::slice::<impl [T]>::iter", (("arg", 2),)))
         ctx.check(okr, "ids:reversed", "the reverse route's edges are not consumed in reversed order (rev() over rev_route.iter())", ins[0].where(), detail="rev_route.iter().rev()")
     ctx.check(oki, "ids:prefixed-by-last-forward-edge", "the id list is not prefixed (insert at 0) with the forward route's last edge id", b.where(), detail="insert(0, fwd.last().edge_id)")
@@ -362,7 +362,7 @@ def R5_reorient(ctx, rid="C01.R5"):
     # single via: chain(fwd, reoriented)
     sb = F.need(astar.A + "ksp::single_via_paths_algorithm::run")
     stm = Terms(sb)
-    ch = [c for c in sb.calls() if c.callee and c.callee.endswith("Iterator::chain")]
+    ch = [c for c in sb.calls() if c.callee and itm(c.callee, "chain")]
     okc = len(ch) == 1
     if okc:
         a0 = nosite(deep_strip(stm.operand(ch[0].args[0], ch[0].bb)))
@@ -388,7 +388,7 @@ def loop_test_rule(ctx, rid):
         return
     c = canon_cmp(c)
     small, big = c[1], c[2]
-    srcs = [x for x in calls_in(big) if x[1].endswith("Iterator::map")]
+    srcs = [x for x in calls_in(big) if itm(x[1], "map")]
     oka = c[0] == "Lt" and len(srcs) == 1 and srcs[0][2][0] == ("call", "std::slice::<impl [T]>::iter", (("arg", 1),))
     if oka:
         cb = F.need(srcs[0][2][1][1])
